@@ -1,6 +1,8 @@
 pub mod c01;
 pub mod c03;
 pub mod c04;
+pub mod c12;
+pub mod c13;
 pub mod c20;
 
 use crate::report::{Args, Report};
@@ -11,6 +13,8 @@ pub fn dispatch(args: &Args, rep: &mut Report) -> bool {
         "c01" => c01::run(args, rep),
         "c03" => c03::run(args, rep),
         "c04" => c04::run(args, rep),
+        "c12" => c12::run(args, rep),
+        "c13" => c13::run(args, rep),
         "c20" => c20::run(args, rep),
         _ => return false,
     }
